@@ -5,6 +5,11 @@
 (* 2^cs (both exact in floating point) and a row permutation.  Actions:      *)
 (*   ScaleLoads(d):   SD' = 2^d SD, everything else unchanged                *)
 (*   ScaleCycles(d):  ND' = 2^d ND, everything else unchanged                *)
+(*   ChangeUnit(j):   the loads are expressed in another unit (a real factor,  *)
+(*                    not a power of two): 1 = ksi, 2 / 3 = fractions of the   *)
+(*                    finite/infinite transition load (so that the knee lies   *)
+(*                    just below / just above 1), 4 = an arbitrary 9-digit     *)
+(*                    factor; SD scales with the factor, nothing else changes  *)
 (*   Permute:         nothing changes                                        *)
 (*   Distract:        another data set is analysed in between; nothing       *)
 (*                    changes for the tracked one (no state carried over)    *)
@@ -16,11 +21,12 @@ LoadShiftsMC == {1, -2, -14, 20}        \* 2^20: the same tests with loads in Pa
 CycleShiftsMC == {2, -1}
 VARIABLES cfg, hist
 vars == <<cfg, hist>>
-Init == \E d \in Datasets : cfg = [ds |-> d, ls |-> 0, cs |-> 0, perm |-> 0] /\ hist = <<>>
+Init == \E d \in Datasets : cfg = [ds |-> d, ls |-> 0, cs |-> 0, perm |-> 0, unit |-> 0] /\ hist = <<>>
 Next ==
   /\ Len(hist) < MaxDepth
   /\ \/ \E d \in LoadShifts : cfg' = [cfg EXCEPT !.ls = @ + d] /\ hist' = Append(hist, <<"ScaleLoads", d>>)
      \/ \E d \in CycleShifts : cfg' = [cfg EXCEPT !.cs = @ + d] /\ hist' = Append(hist, <<"ScaleCycles", d>>)
+     \/ \E j \in (1..4) \ {cfg.unit} : cfg' = [cfg EXCEPT !.unit = j] /\ hist' = Append(hist, <<"ChangeUnit", j>>)
      \/ cfg' = [cfg EXCEPT !.perm = @ + 1] /\ hist' = Append(hist, <<"Permute", 0>>)
      \/ cfg' = cfg /\ hist' = Append(hist, <<"Distract", 0>>)
 Spec == Init /\ [][Next]_vars
